@@ -255,6 +255,12 @@ func (w *World) run() {
 	}
 	w.rootGID = curGID()
 	w.installYields()
+	for _, y := range w.c.Yields {
+		if y.Point == "carrier.send.afterPush" {
+			// the carrier's SendMsg may return late - after the peer has seen the frame and even answered it
+			w.net.AfterSend = func(*Stream, Dir) { w.cbYield("carrier.send.afterPush") }
+		}
+	}
 	w.setPhase("setup")
 	if !w.setup() {
 		w.finish()
